@@ -1014,12 +1014,18 @@ RULES = {
            "(full dictionaries), view05(sdn.parse) vs the design's denotation, well-formedness oracle. ~6% of the cases "
            "carry exactly one trigger of a known open finding.",
     "C03": "netlists built through the public API from generated recipes (1-4 libraries with acyclic dependencies declared "
-           "in shuffled order, adversarial names, bus ports/cables with base indices, one-wire array cables, unconnected "
-           "pins, empty nets, instance properties of the three types) and reader-produced netlists (abstract designs of C05, "
-           "bundled files <= 50 kB quick / <= 3 MB thorough): compose to a temp file, compare the file's tokens with the "
-           "Lean writer model (time stamp masked), parse it back (reader correspondence on the written text), P = equality "
-           "of the name-keyed C03 view before/after + well-formedness, then compose/parse the parsed netlist again "
-           "(parse.compose.parse = parse). Distinct by recipe hash; non-trivial = has hierarchy or a bus.",
+           "in shuffled order; adversarial names that are deliberately REUSED across scopes - the same cell name in several "
+           "libraries, the same port / instance / cable names in different cells, all instantiated and connected - and that "
+           "collide after sanitising or differ only in letter case; bus ports/cables with base indices, one-wire array cables, "
+           "unconnected pins, empty nets, instance properties of the three types); 45% of them continue with a HISTORY on the "
+           "same netlist: write (or write and read back) -> 1-4 API edits (add a cell and instantiate it in an existing cell, "
+           "add instance / port / cable, rename library / cell / port / cable / instance; new names built to collide with "
+           "identifiers an earlier compose or the reader has stamped on siblings) -> optionally write / read back and edit "
+           "again -> write -> read; plus reader-produced netlists (abstract designs of C05, bundled files <= 50 kB quick / "
+           "<= 3 MB thorough). For each: compose to a temp file, compare the file's tokens with the Lean writer model (time "
+           "stamp masked), parse it back (reader correspondence on the written text), P = equality of the name-keyed C03 view "
+           "before/after + well-formedness, then compose/parse the parsed netlist again (parse.compose.parse = parse). Distinct "
+           "by hash of recipe + history; non-trivial = has hierarchy or a bus.",
 }
 ASSUMPTIONS = {
     "C05": ["names and strings are printable ASCII (decision 8); no float-valued (number (e ..)) properties; scalar nets are not "
@@ -1029,7 +1035,7 @@ ASSUMPTIONS = {
             "input distribution"],
     "C03": ["identifier assignment (make_valid) and the library/cell order chosen by the writer are read back from the "
             "implementation after compose and fed to the writer model (C17 / C16 own them); names avoid C17's open "
-            "sub-domains ('-', case-only sibling collisions, >= 250 characters)",
+            "sub-domains (double quote in names, leading backslash, identifiers >= 250 characters)",
             "quantifier of the property: all elements named, no double quote/newline in names and string properties, "
             "non-empty ports and cables, scalar bundles at index 0, acyclic library dependencies"],
 }
